@@ -20,21 +20,6 @@ var LastSite int
 // FuelExhausted is the panic value raised when one case has executed more than FuelLimit ticks.
 type FuelExhausted struct{ Site int }
 
-// SiteCounts, when non-nil, receives per-site tick counts (used only by the confirmation run of
-// a suspected hang, to name the loop that was spinning).
-var SiteCounts []int64
-
-func Tick(site int) {
-	Fuel++
-	if SiteCounts != nil && site < len(SiteCounts) {
-		SiteCounts[site]++
-	}
-	if Fuel > FuelLimit {
-		LastSite = site
-		panic(FuelExhausted{site})
-	}
-}
-
 // ---------------------------------------------------------------- map order (R-order)
 
 type Entry[K comparable, V any] struct {
@@ -153,3 +138,17 @@ func ResetAll() {
 func OrderValues(site int, s []reflect.Value) []reflect.Value {
 	return OrderSlice(site, s, func(v reflect.Value) string { return fmt.Sprint(v) })
 }
+
+// ---------------------------------------------------------------- cooperative scheduler seam (C15)
+
+// Scheduler is implemented by the harness. With no scheduler attached the shim types in
+// vsync / vatomic fall through to the real primitives.
+type Scheduler interface {
+	MutexLock(key uintptr)
+	MutexUnlock(key uintptr)
+	RLock(key uintptr)
+	RUnlock(key uintptr)
+	Atomic(key uintptr, write bool) // scheduling point + happens-before edge on the atomic location
+}
+
+var Sched Scheduler
